@@ -62,6 +62,28 @@ def mentions_acc(t, loopid=None):
     return mentions(t, lambda x: x and x[0] == "acc" and (loopid is None or x[1] == loopid))
 
 
+def _deep_mentions_acc(t, loop, depth=0):
+    """t reads an accumulator of `loop` inside a comprehension or nested loop it refers to."""
+    loops = getattr(loop, "all_loops", None)
+    if loops is None or depth > 4 or not isinstance(t, tuple):
+        return False
+    found = []
+
+    def walk(x):
+        if isinstance(x, tuple):
+            if x and x[0] in ("compr", "res") and len(x) > 1 and x[1] in loops and x[1] != loop.id:
+                found.append(loops[x[1]])
+            for y in x:
+                walk(y)
+    walk(t)
+    for L2 in found:
+        terms = [L2.source, L2.elt] + list(L2.filters or []) + list(L2.update.values()) + list(L2.init.values())
+        for u in terms:
+            if isinstance(u, tuple) and (mentions_acc(u, loop.id) or _deep_mentions_acc(u, loop, depth + 1)):
+                return True
+    return False
+
+
 def subst(t, f):
     """Bottom-up rewrite: f(term) -> replacement or None."""
     if not isinstance(t, tuple) or not t:
@@ -1053,6 +1075,7 @@ class SymX:
         if s.orelse:
             raise Unsupported("for-else")
         loop = Loop(next(self._ids), "for", s)
+        loop.all_loops = self.loops
         self.loops[loop.id] = loop
         loop.source = self._iter_source(s.iter, st, f, depth, loop)
         self._value_call_effect(loop.source, st)
@@ -1142,6 +1165,7 @@ class SymX:
         if s.orelse:
             raise Unsupported("while-else")
         loop = Loop(next(self._ids), "while", s)
+        loop.all_loops = self.loops
         self.loops[loop.id] = loop
         carried = self._assigned_in(s.body)
         body = st.copy()
@@ -1194,6 +1218,7 @@ class SymX:
             raise Unsupported("nested comprehension generators")
         gen = e.generators[0]
         loop = Loop(next(self._ids), "compr", e)
+        loop.all_loops = self.loops
         self.loops[loop.id] = loop
         loop.ckind = {ast.ListComp: "list", ast.GeneratorExp: "gen", ast.SetComp: "set"}.get(type(e), "dict")
         inner = st.copy()
@@ -1916,10 +1941,16 @@ class SymX:
         sub.heap = dict(st.heap)
         if isinstance(node, ast.Lambda):
             return self.expr(node.body, sub, f, depth + 1)
+        is_gen = any(isinstance(n, (ast.Yield, ast.YieldFrom)) for b in node.body for n in ast.walk(b)
+                     if not isinstance(b, (ast.FunctionDef, ast.AsyncFunctionDef)))
+        if is_gen:
+            sub.env["$yield"] = ("list", ())       # a local generator function: what it yields, collected (as for module-level ones)
         out = self.block(node.body, sub, f, depth + 1)
         alive = self._alive(st)
         for e in out.effects:
             st.effects.append((mk_and(alive, e[0]),) + e[1:])
+        if is_gen:
+            return out.env["$yield"]
         return out.env["$ret"]
 
 
@@ -2128,6 +2159,11 @@ def classify(loop):
         init = loop.init.get(v, UNBOUND)
         if u == acc:
             out[v] = Fold("UNCHANGED", init=init)
+            continue
+        if not mentions_acc(u, loop.id) and _deep_mentions_acc(u, loop):
+            # the accumulator is read inside a comprehension / nested loop of the update (`acc = tuple(a + x for a, x in zip(acc, xs))`):
+            # not the value of the last iteration - an accumulation this classifier does not name
+            out[v] = Fold("OTHER", init=init, term=u)
             continue
         if not mentions_acc(u, loop.id):
             out[v] = Fold("LAST", init=init, value=u)
